@@ -244,11 +244,19 @@ func (m *mappers) ToCharGroup(r comb.Result) (comb.Result, bool) {
 
 	items := r2.Val.(comb.List)
 
+	// Characters beyond ASCII (e.g. \x0100) do not fit in the map: they are kept aside.
+	// Negation ranges over ASCII only, so they matter only when the group is not negated.
+	var others []rune
+
 	charMap := make([]bool, len(parser.RuneClasses["ASCII"].Runes()))
 	for _, r := range items {
 		if chars, ok := r.Bag[bagKeyChars].([]rune); ok {
 			for _, c := range chars {
-				charMap[c] = true
+				if 0 <= c && int(c) < len(charMap) {
+					charMap[c] = true
+				} else if !containsRune(c, others) {
+					others = append(others, c)
+				}
 			}
 		}
 	}
@@ -258,6 +266,14 @@ func (m *mappers) ToCharGroup(r comb.Result) (comb.Result, bool) {
 		if (!neg && marked) || (neg && !marked) {
 			alt.Exprs = append(alt.Exprs, &Char{
 				Val: rune(i),
+			})
+		}
+	}
+
+	if !neg {
+		for _, c := range others {
+			alt.Exprs = append(alt.Exprs, &Char{
+				Val: c,
 			})
 		}
 	}
